@@ -126,21 +126,27 @@ def gen_params(name="polymer", outpath=Path("polymer.itp"), inpath=[],
     for missing in find_missing_edges(meta_molecule, meta_molecule.molecule):
         LOGGER.warning(msg, **missing)
 
-    with deferred_open(outpath, 'w') as outfile:
-        header = [ ' '.join(sys.argv) + "\n" ]
-        header.append("Please cite the following papers:")
-        citation_map = ChainMap(meta_molecule.molecule.force_field.citations, COMMON_CITATIONS)
-        for citation in meta_molecule.molecule.citations:
-            # a citation key without an entry must not prevent writing the itp file
-            if citation not in citation_map:
-                continue
-            cite_string =  citation_formatter(citation_map[citation])
-            LOGGER.info("Please cite: " + cite_string)
-            header.append(cite_string)
+    try:
+        with deferred_open(outpath, 'w') as outfile:
+            header = [ ' '.join(sys.argv) + "\n" ]
+            header.append("Please cite the following papers:")
+            citation_map = ChainMap(meta_molecule.molecule.force_field.citations, COMMON_CITATIONS)
+            for citation in meta_molecule.molecule.citations:
+                # a citation key without an entry must not prevent writing the itp file
+                if citation not in citation_map:
+                    continue
+                cite_string =  citation_formatter(citation_map[citation])
+                LOGGER.info("Please cite: " + cite_string)
+                header.append(cite_string)
 
-        vermouth.gmx.itp.write_molecule_itp(meta_molecule.molecule, outfile,
-                                            moltype=name, header=header)
-    DeferredFileWriter().write()
+            vermouth.gmx.itp.write_molecule_itp(meta_molecule.molecule, outfile,
+                                                moltype=name, header=header)
+        DeferredFileWriter().write()
+    except BaseException:
+        # the unfinished file must not stay queued, otherwise the next
+        # successful run in this process would publish it
+        DeferredFileWriter().close()
+        raise
 
     # Print molecule Log messages
     if meta_molecule.molecule.log_entries:
